@@ -64,6 +64,7 @@ where
         infinite_source: repeat.is_none() && !data.is_empty(),
         horizon: 6,
         no_retire_check: true,
+        horizon_delta: 0,
         prefix_spec: repeat.is_none(),
         sync_check: false,
     }
